@@ -14,7 +14,10 @@ the theorems of Props/C01 apply to it.
   pipe play <r>                        → ok | no
   pipe write <m> <pt> <seq> <ts> <mk> <ssrc> <payload> <outs>
         outs: per reader `-` not fanned out, `a` no error, `f` queue-full error   → the model's string
+        `?` (both directions): the reader's own PAUSE is being processed on the server — the push goes
+        to a closed ring or to no writer at all; its outcome is not compared
   pipe pstart <r> <K|->                K = callbacks the reader had when its PAUSE returned (TCP) → ok | bad
+  pipe pcl <r>                         the server's OnPause handler returned: `destroyWriter` follows → ok | bad
   pipe pinact <r>                      → ok <number of callbacks so far> | bad
   pipe leave <r> <K|->                 → ok <number of callbacks> | bad
   pipe drain <r>                       → ok <number of callbacks>
@@ -71,6 +74,8 @@ def parseFmt (s : String) : Option Fmt :=
 def parseMedias (s : String) : Option (List (List Fmt)) :=
   (s.splitOn ";").mapM fun m => (m.splitOn ",").mapM parseFmt
 
+def closingSt (x : Reader) : Bool := x.status == .ringClosed || x.status == .noWriter
+
 def ochar : Outcome → Char
   | .skip => '-'
   | .accepted => 'a'
@@ -84,7 +89,10 @@ def showDeliv (d : Deliv) : String :=
 def resolveWrite (d : DS) (m : Nat) (outs : List Char) : DS := Id.run do
   let mut d := d
   for i in [0:outs.length] do
-    if outs.getD i '-' == 'a' && outcome d.cfg (d.rd i) m == .refused then
+    if outs.getD i '-' == '?' then
+      -- closed ring: take the push while there is room, then let the writer disappear
+      if (d.rd i).status == .ringClosed && outcome d.cfg (d.rd i) m == .refused then d := d.ev (.ctl i .pnil)
+    else if outs.getD i '-' == 'a' && outcome d.cfg (d.rd i) m == .refused then
       let a := d.ax i
       match a.budget with
       | none => d := d.consume i
@@ -138,8 +146,12 @@ def mk : IO Handler := do
         if (d.cfg.ssrcOf m pt).isNone then return "badfmt"
         let d1 := resolveWrite d m (if outs == "." then [] else outs.toList)
         let os := outcomes d1.cfg d1.st m
+        let hint := if outs == "." then [] else outs.toList
+        let cs := (List.range os.length).map fun i =>
+          if os.getD i .skip != .skip && (closingSt (d1.rd i) || hint.getD i '-' == '?') then '?'
+          else ochar (os.getD i .skip)
         ref.set (d1.ev (.write m p))
-        return if os.isEmpty then "." else String.ofList (os.map ochar)
+        return if os.isEmpty then "." else String.ofList cs
       | _, _, _, _, _, _ => return "bad-op"
     | ["pstart", r, k] =>
       match r.toNat? with
@@ -153,6 +165,22 @@ def mk : IO Handler := do
           return "ok"
         | none => return "bad-op"
       | none => return "bad-op"
+    | ["pcl", r] =>
+      match r.toNat? with
+      | some r =>
+        let x := d.rd r
+        let mut d := d
+        if x.status == .playing then
+          match (d.ax r).budget with
+          | some b =>
+            if x.queue.length < b then return s!"bad delivered {b - x.queue.length} more than were pushed"
+            d := d.consumeN r b
+          | none => if x.udp then d := d.consumeN r x.queue.length
+          d := d.ev (.ctl r .pclose)
+          d := d.setAx r { (d.ax r) with budget := some 0 }
+        ref.set d
+        return "ok"
+      | none => return "bad-op"
     | ["pinact", r] =>
       match r.toNat? with
       | some r =>
@@ -165,6 +193,7 @@ def mk : IO Handler := do
             d := d.consumeN r b
           | none => if x.udp then d := d.consumeN r x.queue.length
           d := d.ev (.ctl r .pclose)
+        if (d.rd r).status == .ringClosed then d := d.ev (.ctl r .pnil)
         if !x.udp then d := d.carryN r (d.rd r).wire.length
         d := d.ev (.ctl r .pinact)
         d := d.setAx r { (d.ax r) with budget := none }
@@ -186,6 +215,7 @@ def mk : IO Handler := do
               d := d.consumeN r (k - have_)
             d := d.carryN r (k - x.cbs.length)
           | none => return "bad-op"
+        if x.udp then d := d.consumeN r x.queue.length   -- whatever was accepted may have been sent
         d := d.ev (.ctl r .leave)
         d := d.setAx r { (d.ax r) with budget := none }
         ref.set d
